@@ -252,7 +252,9 @@ def check_chain(ctx, rule, qual, S, pieces, ret_stmt, tail_is_recursion=None):
             ctx.bad(rule, qual, 'piece %s starts at %r but the previous piece ends at %r' % (U(seg), lo, pos),
                     'the pieces must tile the section left to right without gap or overlap', facts, st)
         if guard is not None:
-            if not guard_is_nonempty(guard, lo, hi, S):
+            # the piece itself used as the test (truthiness of a string slice: non-empty) is the guard by definition
+            if U(guard) != U(seg) and U(guard) not in ('len(%s) > 0' % U(seg), 'len(%s) != 0' % U(seg)) \
+                    and not guard_is_nonempty(guard, lo, hi, S):
                 ok = False
                 ctx.bad(rule, qual, 'optional piece %s guarded by %s' % (U(seg), U(guard)),
                         'an optional prefix/suffix may be omitted exactly when it is empty (otherwise characters are lost or '
